@@ -38,7 +38,7 @@ def cases(tier, rng):
     yield {'kind': 'mux', 'term': [['map', ['raise_if_mod', 2, 0]], ['route'], ['to_list']], 'items': [1, 2, 3, 4]}
     yield {'kind': 'mux', 'term': [['scan', ['raise_if_mod', 3, 0], 0, False, None], ['err_map', -1], ['to_list']], 'items': [1, 3, 2]}
     yield {'kind': 'mux', 'term': [['map', ['raise_if_mod', 2, 0]]], 'items': [1, 2, 3]}
-    n = {'quick': 500, 'thorough': 10000, 'search': 600}[tier]
+    n = {'quick': 1500, 'thorough': 10000, 'search': 600}[tier]
     for _ in range(n):
         op, (k, r), kind = failing_op(rng)
         h = rng.choice([['ignore'], ['err_map', -1], ['err_map_name'], ['route'], ['route', 'late'], None])
